@@ -8,7 +8,7 @@ A world (JSON-able dict):
   req        ordered list of requested names
   nsrc       number of sources; src[s][m] in {'ok', 'notfound', 'error'}          (default: source 0 holds everything)
   variant    {m: k} which of several distinct healthy texts source s supplies is (m, s) -> text id  (C08)
-  text       {m: kind}  healthy | empty | comment | lexerr | synerr | truncated | dupsym | unktype | badimport | twomods | misnamed |
+  text       {m: kind}  healthy | empty | comment | lexerr | synerr | truncated | dupsym | unktype | badrange | badimport | twomods | misnamed |
                         bundle (two modules, the first importing from the second)
   symerr     [m...]  the symbol-table generator raises PySmiSemanticError for m
   generr     [m...]  the code generator raises PySmiCodegenError for m
@@ -77,6 +77,9 @@ def source_text(world, s, m):
         # a real symbol-table failure that leaves a postponed symbol behind (object of a type nobody defines)
         return good.replace('IMPORTS ', 'IMPORTS OBJECT-TYPE FROM SNMPv2-SMI\n    ', 1).replace(
             'END', 'u%s OBJECT-TYPE SYNTAX NowhereDefinedType MAX-ACCESS read-only STATUS current DESCRIPTION "d" ::= { x%s 7 }\nEND' % (m, m))
+    if kind == 'badrange':
+        # a real code generation failure: an empty hex literal cannot be a range bound
+        return good.replace('END', "R%s ::= INTEGER (''H..'ff'H)\nEND" % m)
     if kind == 'badimport':
         return good.replace('IMPORTS ', 'IMPORTS nosuchSymbol FROM SNMPv2-TC\n    ', 1).replace(
             'END', 'z%s OBJECT IDENTIFIER ::= { nosuchSymbol 1 }\nEND' % m)
@@ -419,7 +422,7 @@ def reference(world):
             b not in parsed and ((world.get('used') and b != base) or (b == base and c != base)) for b in out_edges)
         # (a module filed under another name that imports "itself" by the file name imports a module that does not exist,
         # and the imported symbol collides with its own)
-        if cascade or c in world.get('generr', []) or (world.get('text', {}).get(base) == 'badimport' and c == base):
+        if cascade or c in world.get('generr', []) or (world.get('text', {}).get(base) in ('badimport', 'badrange') and c == base):
             failed[c] = set(['failed'])
             ref['gen'].add(c)
             continue
